@@ -52,6 +52,8 @@ pub struct RunSpec<T: Sc> {
     pub refit: bool,
     /// singular value threshold supplied by the caller (None: the default)
     pub eps: Option<T>,
+    /// builder call order: weights before observations
+    pub weights_first: bool,
 }
 
 pub fn fam_shape(fam: &str) -> (usize, usize) {
@@ -68,9 +70,21 @@ pub fn make_problem<T: Sc>(rs: &RunSpec<T>, start: &[T], log: Option<SharedLog>)
     macro_rules! fin {
         ($model:expr) => {{
             let m = $model;
+            // the builder calls in the order the run asks for (the result must not depend on it)
+            let mut calls = Vec::new();
+            if let (true, Some(w)) = (rs.weights_first, w) {
+                calls.push(BCall::Weights(w.to_vec()));
+            }
+            if let Some(e) = rs.eps {
+                calls.push(BCall::Epsilon(e));
+            }
+            calls.push(BCall::Observations(rs.y.clone()));
+            if let (false, Some(w)) = (rs.weights_first, w) {
+                calls.push(BCall::Weights(w.to_vec()));
+            }
             match log {
-                Some(l) => build_problem(Rec::new(m, l), rs.mrhs, rs.par, &rs.y, w, rs.eps),
-                None => build_problem(m, rs.mrhs, rs.par, &rs.y, w, rs.eps),
+                Some(l) => build_with_calls(Rec::new(m, l), rs.mrhs, rs.par, &calls),
+                None => build_with_calls(m, rs.mrhs, rs.par, &calls),
             }
             .map_err(|e| format!("{e:?}"))
         }};
@@ -746,6 +760,7 @@ fn poly_run<T: Sc>(i: usize, rng: &mut StdRng) -> RunSpec<T> {
         refit: i % 3 == 1,
         // a regularising threshold: the truncated solve is active along the fit
         eps: if i % 7 == 3 { Some(T::of64([0.3, 2.0][(i / 7) % 2])) } else { None },
+        weights_first: (i / 3) % 2 == 1,
     }
 }
 
@@ -808,6 +823,7 @@ fn exp_run<T: Sc>(i: usize, near: bool, rng: &mut StdRng) -> RunSpec<T> {
         post_jac: !near && i % 2 == 1,
         refit: !near && i % 4 == 2,
         eps: None,
+        weights_first: (i / 2) % 2 == 1,
     }
 }
 
